@@ -770,3 +770,9 @@ func negativeImpliesParam(p *Program, g *ssa.Function, pi int, val bool) bool {
 	}
 	return true
 }
+
+// asValue returns the instruction as a value, or nil if it defines none.
+func asValue(in ssa.Instruction) ssa.Value {
+	v, _ := in.(ssa.Value)
+	return v
+}
